@@ -243,6 +243,7 @@ def _h_c14(rec):
 
 HANDLERS["c14"] = _h_c14
 HANDLERS["c09"] = _grid_handler("rt_c09", "C09 Jacobian-structure")
+HANDLERS["c04"] = _grid_handler("rt_c04", "C04 quadrature / goodness-of-fit")
 HANDLERS["losses"] = _grid_handler("rt_c17", "C17 loss re-evaluation")
 HANDLERS["transformed"] = _grid_handler("rt_c03", "C03 change-of-variables")
 HANDLERS["merge_transforms"] = _grid_handler("rt_c03", "C03 change-of-variables")
